@@ -30,6 +30,8 @@ type Env struct {
 	fnKey      string          // function whose locals are in scope (loop invariants)
 	locals     map[string]bool // names in vars / cells that are locals of that function
 	inOld      bool            // inside old(...)
+	qdepth     int             // number of enclosing ordinary quantifiers
+	assumeInv  bool            // a loop invariant being assumed at the loop head (clock quantifiers get a fresh instant)
 	outer      *HeapView       // the view outside the enclosing old(...), for cur(...)
 	allocBound *Term           // "allocated(x)": x existed when the contract's function was entered
 }
@@ -296,6 +298,7 @@ func (st *State) elab(env *Env, e *Expr) (SVal, types.Type) {
 			return st.elabClockExists(env, e), tBool
 		}
 		n := env.child()
+		n.qdepth = env.qdepth + 1
 		var vars []*Term
 		for _, qv := range e.Vars {
 			t := st.resolveType(env.pkg, qv.Type)
@@ -757,6 +760,10 @@ func (st *State) loadModules(names []string) {
 // contract): a fresh instant between the clock before and after the call.
 func (st *State) elabClockExists(env *Env, e *Expr) *Term {
 	name := e.Vars[0].Name
+	if (env.assume || env.assumeInv) && env.qdepth > 0 {
+		// the witness instant would have to depend on the enclosing bound variables
+		st.unsupported("an assumed clock quantifier must not be nested inside another quantifier: %s", e.String())
+	}
 	if env.assume {
 		n := env.child()
 		t := st.clockNow()
@@ -764,8 +771,33 @@ func (st *State) elabClockExists(env *Env, e *Expr) *Term {
 		return st.elabBool(n, e.Args[0])
 	}
 	reads, _ := st.ghostObj["clockreads"].([]*Term)
+	if env.assumeInv {
+		// an assumed loop invariant: the instant is some clock reading of an earlier iteration (or of the code before
+		// the loop) - a fresh instant not before the unit's first reading and not after the clock now; it counts as a
+		// reading from here on, so that the preserved / post obligations can use it as their witness
+		t := st.fresh("then", SInt)
+		if len(reads) > 0 {
+			st.assume(Ge(t, reads[0]))
+		} else {
+			st.assume(Gt(t, IntLit(0)))
+		}
+		if last, ok := st.ghostObj["clock"].(*Term); ok {
+			st.assume(Le(t, last))
+		}
+		st.ghostObj["clockreads"] = append(append([]*Term(nil), reads...), t)
+		n := env.child()
+		n.vars[name] = envVar{t, tInt}
+		return st.elabBool(n, e.Args[0])
+	}
+	// candidates: every reading of this path, and the instant the unit was entered (a unit that returns before it
+	// reads the clock can still satisfy a clause that is vacuous in "now")
+	t0 := st.fresh("clock.entry", SInt)
+	st.assume(Gt(t0, IntLit(0)))
+	if len(reads) > 0 {
+		st.assume(Le(t0, reads[0]))
+	}
 	var ds []*Term
-	for _, t := range reads {
+	for _, t := range append([]*Term{t0}, reads...) {
 		n := env.child()
 		n.vars[name] = envVar{t, tInt}
 		ds = append(ds, st.elabBool(n, e.Args[0]))
